@@ -153,3 +153,7 @@ mod tests {
         }
     }
 }
+
+#[cfg(feature = "pendulum_project_ntpd_rs_verif")]
+#[path = "/verif/hooks/statime-wire/common_timestamp.rs"]
+pub mod vh_common_timestamp;
